@@ -91,6 +91,15 @@ def js_parse_float(*args):
     return float(literal)
 
 
+class _Globals(dict):
+    """The global scope of a context, plus the built-in objects the engine itself needs
+    (which a script cannot rebind)."""
+
+    def __init__(self) -> None:
+        super().__init__()
+        self.intrinsics: Dict[str, Any] = {}
+
+
 class Context:
     """JavaScript execution context with configurable limits."""
 
@@ -107,7 +116,7 @@ class Context:
         """
         self.memory_limit = memory_limit
         self.time_limit = time_limit
-        self._globals: Dict[str, JSValue] = {}
+        self._globals: Dict[str, JSValue] = _Globals()
         self._current_vm = None  # Set during eval() for timeout checking
         self._clock = Clock()  # deadline clock of the evaluation in progress
         self._setup_globals()
@@ -136,6 +145,10 @@ class Context:
         self._globals["RangeError"] = self._create_error_constructor("RangeError")
         self._globals["URIError"] = self._create_error_constructor("URIError")
         self._globals["EvalError"] = self._create_error_constructor("EvalError")
+        # Errors the engine raises are instances of these, whatever a script binds the
+        # global names to later
+        for error_name in ("Error", "TypeError", "SyntaxError", "ReferenceError", "RangeError"):
+            self._globals.intrinsics[error_name] = self._globals[error_name]
 
         # Math object
         self._globals["Math"] = self._create_math_object()
